@@ -4,10 +4,12 @@ C06 model, part 2: the shipped state spaces that are not constructors of the sha
 (top level only; core Lean).
 
   * `EmptyStateSpace`              (EmptyStateSpace.h): `RealVectorStateSpace(0)` whose `getMaximumExtent()` is `0`
-  * `SpaceTimeStateSpace`          (SpaceTimeStateSpace.cpp): compound `[(1-timeWeight, space), (timeWeight, time)]`;
+  * `SpaceTimeStateSpace`          (SpaceTimeStateSpace.cpp): a compound of two components with the CURRENT weights
+        `w0`, `w1` (the constructor `mkSpacetime?` refuses `timeWeight` outside [0, 1] and adds the space with weight
+        `1 - timeWeight`, the time with weight `timeWeight`; `setSubspaceWeight` may change either afterwards);
         `distance` = `+∞` when `deltaSpace / vMax_ > deltaTime + eps_` (`eps_` = float ε unless a planner calls
-        `updateEpsilon`), else `weights_[0]*deltaSpace + weights_[1]*deltaTime` (NOT the compound's fold from 0.0);
-        `getMaximumExtent()` = `+∞`; `isMetricSpace()` = false.  `+∞` is `none`.
+        `updateEpsilon`), else `weights_[0]*deltaSpace + weights_[1]*deltaTime` (NOT the compound's fold from 0.0, and
+        with NO lower cut-off on the weights); `getMaximumExtent()` = `+∞`; `isMetricSpace()` = false.  `+∞` is `none`.
   * `ProjectedStateSpace` / `AtlasStateSpace` / `TangentBundleStateSpace` (ConstrainedStateSpace.h, a
         `WrapperStateSpace`): distance, equalStates, satisfiesBounds, extent are the AMBIENT space's;
         `isMetricSpace()` = false.
@@ -19,7 +21,7 @@ open OmplModel
 inductive SpaceX (α : Type) where
   | base (s : Space α)
   | empty
-  | spacetime (vmax tw : α) (bounded : Bool) (lo hi : α) (inner : Space α)
+  | spacetime (vmax w0 w1 : α) (bounded : Bool) (lo hi : α) (inner : Space α)
   | constrained (amb : Space α)
   | cforest (s : SpaceX α)
 
@@ -28,11 +30,17 @@ variable {α : Type} [Num α]
 /-- `std::numeric_limits<float>::epsilon()` = 2⁻²³ -/
 def fltEps : α := Num.ofNat 1 / Num.ofNat 8388608
 
+/-- `SpaceTimeStateSpace(spaceComponent, vMax, timeWeight)`: `if (timeWeight < 0 || timeWeight > 1) throw`, then
+`addSubspace(spaceComponent, 1 - timeWeight); addSubspace(TimeStateSpace, timeWeight)` -/
+def SpaceX.mkSpacetime? (vmax tw : α) (bounded : Bool) (lo hi : α) (inner : Space α) : Option (SpaceX α) :=
+  if tw < Num.ofNat 0 || Num.ofNat 1 < tw then none
+  else some (.spacetime vmax (Num.ofNat 1 - tw) tw bounded lo hi inner)
+
 /-- the `Space` whose state layout (and `equalStates` / `satisfiesBounds`) the space uses -/
 def SpaceX.layout : SpaceX α → Space α
   | .base s => s
   | .empty => .rv [] []
-  | .spacetime _ tw b lo hi inner => .ccons (Num.ofNat 1 - tw) inner (.ccons tw (.time b lo hi) .cnil)
+  | .spacetime _ w0 w1 b lo hi inner => .ccons w0 inner (.ccons w1 (.time b lo hi) .cnil)
   | .constrained amb => amb
   | .cforest s => s.layout
 
@@ -40,10 +48,10 @@ def SpaceX.layout : SpaceX α → Space α
 def distX [SphereNum α] : SpaceX α → St α → St α → Option α
   | .base s, a, b => some (dist s a b)
   | .empty, _, _ => some (rvDist ([] : List α) [])
-  | .spacetime vmax tw _ _ _ inner, .ccons a1 (.ccons (.time t1) .cnil), .ccons b1 (.ccons (.time t2) .cnil) =>
+  | .spacetime vmax w0 w1 _ _ _ inner, .ccons a1 (.ccons (.time t1) .cnil), .ccons b1 (.ccons (.time t2) .cnil) =>
     let dS := dist inner a1 b1
     let dT := timeDist t1 t2
-    if dT + fltEps < dS / vmax then none else some ((Num.ofNat 1 - tw) * dS + tw * dT)
+    if dT + fltEps < dS / vmax then none else some (w0 * dS + w1 * dT)
   | .spacetime .., _, _ => some (Num.ofNat 0)
   | .constrained amb, a, b => some (dist amb a b)
   | .cforest s, a, b => distX s a b
